@@ -42,12 +42,17 @@ def run(ctx, b, broken):
             if impl_parse(f["input"]).startswith("OK"):
                 ctx.known(f["id"], f["what"])
     for text in ["#pragmatic x\nint a;", "#pragma_once\nint a;", "#pragmas omp\nint a;", "#pragma2\nint a;", "#linear 3\nint a;", "#line3\nint a;", "# pragmax\nint a;",
-                 "void f(void){\n#pragmatic y\n}", "struct S {\n#pragma_ z\n int m; };", "#include <x.h>\nint a;", "#if 1\nint a;\n#endif", "#\nint a;", "# define X\nint a;"]:
+                 "void f(void){\n#pragmatic y\n}", "struct S {\n#pragma_ z\n int m; };", "#include <x.h>\nint a;", "#if 1\nint a;\n#endif", "#\nint a;", "# define X\nint a;",
+                 "#ident \"v1.2\"\nint a;", "#sccs \"x\"\nint a;", "void f(void){\n#ident \"in body\"\n}", "# ident \"v\"\nint a;", "#warning w\nint a;", "#error e\nint a;", "#undef X\nint a;",
+                 "#ifdef X\nint a;\n#endif", "#ifndef X\nint a;\n#endif", "int a;\n#else\nint b;", "int a;\n#elif 1\nint b;", "int a;\n#endif", "#import <x.h>\nint a;", "#include_next <x.h>\nint a;",
+                 "#assert m(x)\nint a;", "#unassert m\nint a;", "#line\nint a;", "#pragma_once\nint a;", "#Pragma x\nint a;", "#LINE 3\nint a;", "#lines 3\nint a;", "#1a\nint a;", "#\t\nint a;",
+                 "int x = 1'2 + 3;", "int y = 12'345;", "int z = 0x1'f;", "double d = 1'0.5;", "int w = 1'2'3;", "int a[1'0];", "void f(int c){ switch (c) { case 1'0: ; } }", "int v = 1'000'000;", "long l = 10'0L;",
+                 "int x; \x1a }}} @ ((", "int x;\x1a", "int x = 1;\n\x1a\nint y = ;", "int \x00 x;", "int x; \x04", "int x\x1b;", "int\x08 x;"]:
         ctx.count("suite:directive-names")
-        must_reject(text, "it contains a preprocessor directive other than #line / #pragma", True)
+        must_reject(text, "it contains a preprocessor directive other than #line / #pragma, or a character sequence that is not a C token", True)
     nprog = 120 if ctx.tier == "quick" else 1500
     # characters that are neither C tokens nor C white space: control characters and the non-ASCII "spaces" of str.isspace()
-    ODD = ["\xa0", "\x85", "\u2003", "\u2028", "\u2029", "\u3000", "\x1c", "\x1d", "\x1e", "\x1f", "\x01", "\x7f", "\ufeff", "\u200b"]
+    ODD = ["\xa0", "\x85", "\u2003", "\u2028", "\u2029", "\u3000", "\x1c", "\x1d", "\x1e", "\x1f", "\x01", "\x7f", "\ufeff", "\u200b", "\x1a", "\x00", "\x04", "\x1b", "\x08", "\x0e"]
     inj = ["@", "`", "\\", "/* c */", "// c\n", "'", "#define X 1\n", "#include <x.h>\n", "$#", "\"unterminated"] + ODD
     for g, toks, exp in gen_cases(ctx, nprog, size=(1, 2)):
         sp = [t[0] + ("\n" if t[2] == "pragma" else "") for t in toks]
